@@ -110,6 +110,7 @@ type c04Monitor struct {
 	asks      int64
 	moves     int64
 	lastFetch int64
+	prevFetch int64
 	clusterDn int64
 }
 
@@ -133,6 +134,9 @@ func (m *c04Monitor) onEvent(e *fakecluster.Event) {
 		}
 	}
 	if e.Cmd == "cluster" {
+		// the two most recent fetches: refreshes are sequential in the proxy, so when a SECOND fetch issued after an event has
+		// been served, the layout returned by the first one has certainly been applied
+		atomic.StoreInt64(&m.prevFetch, atomic.LoadInt64(&m.lastFetch))
 		atomic.StoreInt64(&m.lastFetch, e.Seq)
 	}
 }
@@ -160,7 +164,7 @@ func leakIn(v resp.Value) bool {
 func c04(r *ev.Run) {
 	r.Rule("Mode A: sequential PRNG programs on keys concentrated in 2-4 slots, every reply compared with a single-server reference, while slots are migrated step by step (IMPORTING, MIGRATING, per-key MIGRATE, SETSLOT on target / source / everyone) with 0-5 client commands between steps, and while masters are killed and their replicas promoted; Mode B: the same with concurrent clients and a migration driver on its own goroutine, per-key linearizability; unique write ids counted in the node log; distinct = distinct (mode, scenario, migration-step reached by traffic, redirect kinds seen) tuples")
 	r.Assume("the simulator follows the cluster specification: owner + MIGRATING + key absent -> ASK; not owner + IMPORTING + ASKING -> execute; otherwise MOVED; ASKING is one-shot; migration order: IMPORTING on the target, MIGRATING on the source, keys, SETSLOT on target, source, everyone; replicas share their master's data (synchronous replication)")
-	r.Assume("a command is excused (may return an error, stays open in the history) only while its key's master is dead (or was its slot's owner earlier in the same program: the proxy's table may legitimately still point there) and until a CLUSTER NODES fetch issued after the promotion has been observed plus 30 further commands; after an excused error the reference is resynchronised from the nodes for that key")
+	r.Assume("a command is excused (may return an error, stays open in the history) only while its key's master is dead (or was its slot's owner earlier in the same program: the proxy's table may legitimately still point there) and until a second CLUSTER NODES fetch issued after the promotion has been served (the first one is then applied: refreshes are sequential) plus 30 further commands; after an excused error the reference is resynchronised from the nodes for that key")
 	for _, race := range []bool{false, true} {
 		s, err := startSUT(r, race, 100, 20)
 		if err != nil {
@@ -336,9 +340,9 @@ func c04ModeA(r *ev.Run, s *sutc.SUT, seed int64, idx int, label string) {
 			cl.Unlock()
 			trace = append(trace, fmt.Sprintf("replica node %d promoted", rep.Idx))
 		}
-		if promotedAt >= 0 && excusedUntil == 1<<30 && atomic.LoadInt64(&mon.lastFetch) > promotedAt {
+		if promotedAt >= 0 && excusedUntil == 1<<30 && atomic.LoadInt64(&mon.prevFetch) > promotedAt {
 			excusedUntil = ci + 30
-			trace = append(trace, "CLUSTER NODES fetched after the promotion")
+			trace = append(trace, "second CLUSTER NODES fetch after the promotion served: the first one has been applied")
 		}
 		if promotedAt >= 0 && excusedUntil == 1<<30 && ci > promoteAt+400 {
 			excusedUntil = ci // the refresh never came: stop excusing (C07 territory, reported here as well)
@@ -385,7 +389,16 @@ func c04ModeA(r *ev.Run, s *sutc.SUT, seed int64, idx int, label string) {
 			stepReached[mig.step] = true
 		}
 		w := func() map[string]interface{} {
-			return map[string]interface{}{"workload": label, "seed": seed, "scenario": scenario, "trace_tail": tail(trace, 25), "want": want.String()}
+			m := map[string]interface{}{"workload": label, "seed": seed, "scenario": scenario, "trace_tail": tail(trace, 25), "want": want.String()}
+			if dead != nil {
+				m["dead_master"] = fmt.Sprintf("node %d %s", dead.Idx, dead.Addr)
+				m["promoted_at_command"], m["excused_until_command"], m["command"] = promoteAt, excusedUntil, ci
+				m["proxy_log_tail"] = s.LogTail(2500)
+				cl.Lock()
+				m["cluster_nodes_now"] = cl.Nodes[(dead.Idx+1)%len(cl.Nodes)].ClusterNodesLocked()
+				cl.Unlock()
+			}
+			return m
 		}
 		if err != nil {
 			conns[ci%nconn].Close()
